@@ -65,7 +65,7 @@ Proof. exact cvl_value. Qed.
 (* the multi-round fan-in always terminates: for EVERY fan-out (None, 0, 1, 2, ...) and every
    number of accumulators the loop ends within `length accs` rounds *)
 Theorem c05_merge_rounds_terminates : forall A (c : combiner val A val) fuel fanout accs,
-    length accs <= fuel -> exists accs', merge_rounds A c (S fuel) fanout accs = Ok accs'.
+    (length accs <= fuel)%nat -> exists accs', merge_rounds A c (S fuel) fanout accs = Ok accs'.
 Proof. exact merge_rounds_terminates. Qed.
 
 (* combine_globally, parallel engine: exactly one element, also for no partition at all and for
